@@ -242,7 +242,8 @@ fn judge_cli(ctx: &mut Ctx, sub: &str, kind: &str, args: Vec<String>, stdin: Opt
 /// C18: the jsonlogic command is a faithful, chainable wrapper of the library.
 pub fn c18(ctx: &mut Ctx) {
     let thorough = ctx.tier_thorough;
-    let kinds: Vec<&str> = if thorough { vec!["debug", "release"] } else { vec!["debug"] };
+    // both builds in both tiers: what the wrapper does must not depend on the build profile
+    let kinds: Vec<&str> = vec!["debug", "release"];
     let rules = rule_texts(thorough);
     let datas = data_texts(thorough);
     for kind in &kinds {
@@ -393,7 +394,8 @@ pub fn c01_cli(ctx: &mut Ctx) {
 /// Run the Python driver for `mode` (c19 | c01) and fold its result into ctx.
 pub fn python(ctx: &mut Ctx, mode: &str) {
     let thorough = ctx.tier_thorough;
-    let kinds: Vec<&str> = if thorough { vec!["debug", "release"] } else { vec!["debug"] };
+    // C19 runs both builds of the extension in both tiers; C01's pass over the wrapper the debug build (quick)
+    let kinds: Vec<&str> = if thorough || mode == "c19" { vec!["debug", "release"] } else { vec!["debug"] };
     for kind in kinds {
         let out = std::env::temp_dir().join(format!("jlmc-py-{}-{}-{}.json", std::process::id(), ctx.shard, kind));
         let _ = std::fs::remove_file(&out);
